@@ -132,6 +132,8 @@ type Anchors struct {
 	BodyClosure                        *FuncBody // literal handed to the dedup function by RunTask
 	DedupCall                          *ast.CallExpr
 	DeferRunner                        *FuncBody
+	BodyTail                           []*FuncBody // functions of the package the body closure hands its command loop to
+	LoopFn                             *FuncBody   // the function that contains the cmds loop: the body closure, or its tail
 	StatusOnError, Mkdir               *FuncBody
 	Acquire, Release                   *FuncBody
 	HandleDynamicVar                   *FuncBody
@@ -362,16 +364,42 @@ func ResolveAnchors(p *Prog) *Anchors {
 		a.need("task body closure (literal func(context.Context) error handed by RunTask to the dedup function)", a.BodyClosure)
 	}
 	a.computeReachCmd()
-	// deferred-command runner: callee of a defer in the body closure that reaches the command runner
+	// deferred-command runner: callee of a defer in the task body that reaches the command runner. The task body is the
+	// closure and — when its command loop was split off — the function of the package it calls that registers the defers
+	// ("body tail": analysed as part of the body, never as a command event of its own)
 	if a.BodyClosure != nil {
-		inspectBody(a.BodyClosure.Body, func(n ast.Node) bool {
-			if d, ok := n.(*ast.DeferStmt); ok {
-				if fn, ok := callee(a.BodyClosure.Info(), d.Call).(*types.Func); ok && a.reachCmd[fn] && a.CmdRunner != nil && fn != a.CmdRunner.Obj {
-					a.DeferRunner = p.DeclOf(fn)
+		findDefer := func(fb *FuncBody) *FuncBody {
+			var out *FuncBody
+			inspectBody(fb.Body, func(n ast.Node) bool {
+				if d, ok := n.(*ast.DeferStmt); ok {
+					if fn, ok := callee(fb.Info(), d.Call).(*types.Func); ok && a.reachCmd[fn] && a.CmdRunner != nil && fn != a.CmdRunner.Obj {
+						out = p.DeclOf(fn)
+					}
+				}
+				return true
+			})
+			return out
+		}
+		a.DeferRunner = findDefer(a.BodyClosure)
+		a.LoopFn = a.BodyClosure
+		if a.DeferRunner == nil {
+			for _, call := range callsIn(a.BodyClosure, false) {
+				fn, ok := callee(a.BodyClosure.Info(), call).(*types.Func)
+				if !ok {
+					continue
+				}
+				h := p.DeclOf(fn)
+				if h == nil || h.Pkg.PkgPath != PkgTask || h == a.RunTask || h == a.CmdRunner || h == a.DepRunner {
+					continue
+				}
+				if d := findDefer(h); d != nil {
+					a.DeferRunner = d
+					a.BodyTail = append(a.BodyTail, h)
+					a.LoopFn = h
+					delete(a.reachCmd, fn)
 				}
 			}
-			return true
-		})
+		}
 		a.need("deferred-command runner (callee of a defer in the body closure that reaches the command runner)", a.DeferRunner)
 	}
 	return a
@@ -561,4 +589,19 @@ func (a *Anchors) ctxReachesRunTask(p *Prog, fb *FuncBody, v *types.Var, depth i
 		return true
 	})
 	return found
+}
+
+// bodyParts: the task body as a list of function bodies — the closure and the tail it hands its command loop to.
+func (a *Anchors) bodyParts() []*FuncBody {
+	return append([]*FuncBody{a.BodyClosure}, a.BodyTail...)
+}
+
+// isTailCall: the call hands control to the body tail (the position in the closure at which the command loop starts).
+func (a *Anchors) isTailCall(info *types.Info, call *ast.CallExpr) bool {
+	for _, t := range a.BodyTail {
+		if a.is(callee(info, call), t) {
+			return true
+		}
+	}
+	return false
 }
